@@ -2,6 +2,7 @@
 From Coq Require Import ZArith List Bool Ring.
 Import ListNotations.
 Require Import PV.Model.Stencil PV.Model.StencilRun PV.Proofs.StencilBounded PV.Proofs.GalleryProofs.
+Require Import PV.Base.Ops PV.Proofs.RelaxProofs PV.Model.Diffusion PV.Proofs.DiffusionProofs.
 
 (* stencil_grid = "row of a grid point holds the stencil entries of the neighbours that exist":
    bounded theorem -- every grid with 1..3 points per dimension in 1-3 D (1..5 in 1-D), 1-wide
@@ -37,3 +38,57 @@ Theorem C20_diffusion_FD_sums_to_zero :
              (fd_a R r1 rmul rsub eps CS half)) = r0.
 Proof. exact fd_stencil_sums_to_zero. Qed.
 Print Assumptions C20_diffusion_FD_sums_to_zero.
+
+(* both 2-D diffusion stencils, as the library computes them from eps, C = cos(theta), S = sin(theta), are exact
+   on quadratic polynomials: 0 on 1, x, y and  -2 K11, -2 K22, -2 K12  on x^2, y^2, xy, where
+   K = Q diag(1, eps) Q^T, Q the rotation by theta -- they discretise -div K grad u (h = 1).  Any field with
+   2 and 3 invertible; FD on constants needs C^2 + S^2 = 1.  (First array index = x, second = y.) *)
+Theorem C20_diffusion_FE_exact_on_quadratics : forall F (o : Ops F) inv, is_field o inv ->
+  add o (one o) (one o) <> zero o -> add o (add o (one o) (one o)) (one o) <> zero o ->
+  forall eps C S : F,
+  let st := fe_stencil o eps C S in
+  let two := add o (one o) (one o) in
+  let K11 := add o (mul o C C) (mul o eps (mul o S S)) in
+  let K22 := add o (mul o S S) (mul o eps (mul o C C)) in
+  let K12 := mul o (sub o (one o) eps) (mul o C S) in
+  apply_stencil o st (fun _ _ => one o) = zero o /\
+  apply_stencil o st (fun x _ => x) = zero o /\ apply_stencil o st (fun _ y => y) = zero o /\
+  apply_stencil o st (fun x _ => mul o x x) = opp o (mul o two K11) /\
+  apply_stencil o st (fun _ y => mul o y y) = opp o (mul o two K22) /\
+  apply_stencil o st (fun x y => mul o x y) = opp o (mul o two K12).
+Proof.
+  intros F [z0 o1 ad sb ml dv op ab eq le lt] inv [Fth _] H2 H3 eps C S.
+  repeat split.
+  - exact (fe_const F z0 o1 ad ml sb op dv inv ab eq le lt Fth H2 H3 eps C S).
+  - exact (fe_x F z0 o1 ad ml sb op dv inv ab eq le lt Fth H2 H3 eps C S).
+  - exact (fe_y F z0 o1 ad ml sb op dv inv ab eq le lt Fth H2 H3 eps C S).
+  - exact (fe_xx F z0 o1 ad ml sb op dv inv ab eq le lt Fth H2 H3 eps C S).
+  - exact (fe_yy F z0 o1 ad ml sb op dv inv ab eq le lt Fth H2 H3 eps C S).
+  - exact (fe_xy F z0 o1 ad ml sb op dv inv ab eq le lt Fth H2 H3 eps C S).
+Qed.
+Print Assumptions C20_diffusion_FE_exact_on_quadratics.
+
+Theorem C20_diffusion_FD_exact_on_quadratics : forall F (o : Ops F) inv, is_field o inv ->
+  add o (one o) (one o) <> zero o -> add o (add o (one o) (one o)) (one o) <> zero o ->
+  forall eps C S : F, add o (mul o C C) (mul o S S) = one o ->
+  let st := fd_stencil o eps C S in
+  let two := add o (one o) (one o) in
+  let K11 := add o (mul o C C) (mul o eps (mul o S S)) in
+  let K22 := add o (mul o S S) (mul o eps (mul o C C)) in
+  let K12 := mul o (sub o (one o) eps) (mul o C S) in
+  apply_stencil o st (fun _ _ => one o) = zero o /\
+  apply_stencil o st (fun x _ => x) = zero o /\ apply_stencil o st (fun _ y => y) = zero o /\
+  apply_stencil o st (fun x _ => mul o x x) = opp o (mul o two K11) /\
+  apply_stencil o st (fun _ y => mul o y y) = opp o (mul o two K22) /\
+  apply_stencil o st (fun x y => mul o x y) = opp o (mul o two K12).
+Proof.
+  intros F [z0 o1 ad sb ml dv op ab eq le lt] inv [Fth _] H2 H3 eps C S HP.
+  repeat split.
+  - exact (fd_const F z0 o1 ad ml sb op dv inv ab eq le lt Fth H2 eps C S HP).
+  - exact (fd_x F z0 o1 ad ml sb op dv inv ab eq le lt Fth H2 eps C S).
+  - exact (fd_y F z0 o1 ad ml sb op dv inv ab eq le lt Fth H2 eps C S).
+  - exact (fd_xx F z0 o1 ad ml sb op dv inv ab eq le lt Fth H2 eps C S).
+  - exact (fd_yy F z0 o1 ad ml sb op dv inv ab eq le lt Fth H2 eps C S).
+  - exact (fd_xy F z0 o1 ad ml sb op dv inv ab eq le lt Fth H2 eps C S).
+Qed.
+Print Assumptions C20_diffusion_FD_exact_on_quadratics.
